@@ -207,6 +207,7 @@ func writesHash(writes map[string][]keyWrite) string {
 }
 
 var crashSeen = map[uint64]bool{}
+var prefixSeen = map[uint64]bool{}
 var crashStats = map[string]int64{}
 
 type crashReplay struct {
@@ -269,8 +270,16 @@ func c06ExecNode(x *XSpec, hist []Op, wantDump bool) HistOutcome {
 	base := vos.New()
 	wh := writesHash(writes)
 	expect := expectDurableOrLater(writes)
-	vos.CrashStates(base, log, func(k, cut int, st *vos.FS) bool {
+	whh := Hash64(wh)
+	vos.CrashStatesSkip(base, log, func(k, cut int, ph uint64) bool {
 		crashStats["crash_states"]++
+		if prefixSeen[ph^whh] {
+			crashStats["crash_states_dup"]++
+			return true
+		}
+		prefixSeen[ph^whh] = true
+		return false
+	}, func(k, cut int, st *vos.FS) bool {
 		h := Hash64(st.Hash() + "|" + wh)
 		if crashSeen[h] {
 			crashStats["crash_states_dup"]++
@@ -325,12 +334,107 @@ func c06Specs(tier string) []*XSpec {
 		{Property: "C06", Name: c3.Name, Cfg: c3, Alphabet: al3, Depth: d - 1, Keys: keys3, ExecNode: c06ExecNode}}
 }
 
+// ---- part (ii): kill points of every schedule (<= 1 preemption) of writer + periodic flusher + hint dumper ----
+
+func c06SchedScenarios(tier string) []*Scenario {
+	var out []*Scenario
+	mk := func(name string, writer func(rec *Recorder), withDumper bool) {
+		c := cfgCrash()
+		c.Name = name
+		sc := &Scenario{Property: "C06", Name: name, Cfg: c}
+		sc.Run = func(sc *Scenario, s *vsched.Sched) (*Mismatch, string) {
+			m := NewMachine(s, sc.Cfg, nil)
+			defer m.Exit()
+			rec := &Recorder{st: m.St}
+			rec.Set(0, "a", val(0, 0, "a", 0))
+			rec.Set(0, "b", val(0, 1, "b", 0))
+			Tick()
+			threads := []func(){func() { writer(rec) }, func() { m.St.VerifFlush(false) }}
+			if withDumper {
+				threads = append(threads, func() { m.St.VerifDump() })
+			}
+			s.Parallel(threads...)
+			log := append([]vos.Mut(nil), m.FS.Log...)
+			writes := map[string][]keyWrite{}
+			ops := append([]RecOp(nil), rec.Ops...)
+			sort.Slice(ops, func(i, j int) bool { return abs32i(ops[i].Ver) < abs32i(ops[j].Ver) })
+			for _, o := range ops {
+				if o.Kind == "set" && o.Err == "" {
+					writes[o.Key] = append(writes[o.Key], keyWrite{ver: o.Ver, body: []byte(o.In)})
+				} else if o.Kind == "del" && o.Found {
+					writes[o.Key] = append(writes[o.Key], keyWrite{ver: o.Ver})
+				}
+			}
+			cfg := sc.Cfg
+			sc.post = func() (*Mismatch, string) {
+				wh := writesHash(writes)
+				expect := expectDurableOrLater(writes)
+				var found *Mismatch
+				n := 0
+				whh := Hash64(wh)
+				vos.CrashStatesSkip(vos.New(), log, func(k, cut int, ph uint64) bool {
+					crashStats["crash_states"]++
+					if prefixSeen[ph^whh] {
+						crashStats["crash_states_dup"]++
+						return true
+					}
+					prefixSeen[ph^whh] = true
+					return false
+				}, func(k, cut int, st *vos.FS) bool {
+					h := Hash64(st.Hash() + "|" + wh)
+					if crashSeen[h] {
+						crashStats["crash_states_dup"]++
+						return true
+					}
+					crashSeen[h] = true
+					crashStats["recoveries"]++
+					n++
+					desc := fmt.Sprintf("crash after %d of %d mutations (torn %d)", k, len(log), cut)
+					mm, refused := recoverAndCheck(cfg, st, []string{"a", "b", "c"}, expect, desc)
+					if refused {
+						crashStats["recoveries_refused"]++
+					}
+					if mm != nil {
+						mm.Step = k
+						if k < len(log) {
+							mm.Op += " next: " + mutString(&log[k])
+						}
+						found = mm
+						return false
+					}
+					return true
+				})
+				return found, fmt.Sprintf("|%d new crash states", n)
+			}
+			return nil, obsString(rec.Ops)
+		}
+		out = append(out, sc)
+	}
+	mk("K1-rotate-flusher", func(rec *Recorder) { rec.Set(1, "c", val(1, 0, "c", 0)); rec.Set(1, "a", val(1, 1, "a", 0)) }, false)
+	if tier != "quick" {
+		// the dumper walks 998 chunk slots (one lock each): ~35 000 schedules at one preemption
+		mk("K3-rotate-flusher-dumper", func(rec *Recorder) { rec.Set(1, "c", val(1, 0, "c", 0)); rec.Set(1, "a", val(1, 1, "a", 0)) }, true)
+	}
+	mk("K2-delete-rotate-flusher", func(rec *Recorder) { rec.Del(1, "a"); rec.Set(1, "b", val(1, 1, "b", 300)) }, false)
+	return out
+}
+
 func C06(job *Job, r *Report) {
 	r.Level = "fault_enumeration"
-	r.Rule = "every history up to the stated depth over {set small / two-block value, delete, forced flush, background work (post-rotation flush), hint dump, Close as last letter} with data files of 2 blocks, hint splits of 2 items and a 256-byte bufio (so write calls end mid-record); for each history EVERY prefix of the memfs mutation log and, for every write, torn variants (every 256-byte boundary, cuts at 1/23/24/25/len-1, every byte for collision.yaml / nextgc.txt) is materialised as a crash state; distinct crash states (by content hash) are recovered in a fresh process and every key is read. Oracle judged on the crash state itself with an independent decoder: the store serves the last complete record D of the key (or a miss for a tombstone / no record) or a write of that key issued after D, or refuses to start only if some data file ends in an incomplete record or is unaligned; distinct_nontrivial = distinct crash states recovered"
+	r.Rule = "part (i): every history up to the stated depth over {set small / two-block value, delete, forced flush, background work (post-rotation flush), hint dump, Close as last letter} with data files of 2 blocks, hint splits of 2 items and a 256-byte bufio (so write calls end mid-record); for each history EVERY prefix of the memfs mutation log and, for every write, torn variants (every 256-byte boundary, cuts at 1/23/24/25/len-1, every byte for collision.yaml / nextgc.txt) is materialised as a crash state; distinct crash states (by content hash) are recovered in a fresh process and every key is read. Oracle judged on the crash state itself with an independent decoder: the store serves the last complete record D of the key (or a miss for a tombstone / no record) or a write of that key issued after D, or refuses to start only if some data file ends in an incomplete record or is unaligned; distinct_nontrivial = distinct crash states recovered"
 	r.Assumptions = []string{"SIGKILL model: completed calls persist, the in-flight call may be partial, no reordering", "memfs models POSIX file semantics (validated by OS replay)", "no GC in this check, so file order is write order"}
 	for _, x := range c06Specs(job.Tier) {
-		x.Explore(r, job)
+		if job.Part == "" || job.Part == x.Name {
+			x.Explore(r, job)
+		}
+	}
+	if job.Part == "" || job.Part == "sched" {
+		pb := 2
+		if job.Tier != "quick" {
+			pb = 1 // with the dumper thread; the two small scenarios are covered at 2 by quick
+		}
+		runScenarios(&Job{Check: job.Check, Tier: job.Tier, Shard: job.Shard, NShards: job.NShards, Seed: job.Seed}, r, c06SchedScenarios(job.Tier), []int{pb}, -1)
+		r.Extra["part_ii"] = map[string]interface{}{"preemption_bound": pb, "rule": "writer (rotating set / delete + two-block set) + periodic flusher (+ hint dumper) under the controlled scheduler: every schedule with at most the stated number of preemptions; for each schedule every prefix of its mutation log and torn variants is recovered and judged as in part (i)"}
 	}
 	for k, v := range crashStats {
 		r.Count(k, v)
